@@ -1611,8 +1611,10 @@ func (c *Client) handleAcquired() error {
 	default:
 	}
 	c.acquired = true
-	c.acquireResultChan <- nil
+	// Reset the cached era before waking the caller: it goes on to read (and
+	// set) currentEra for its next query as soon as the result arrives
 	c.currentEra = -1
+	c.acquireResultChan <- nil
 	return nil
 }
 
